@@ -361,6 +361,19 @@ pub fn eval_input(i: &Input, obs: &mut Obs) -> Result<(), Fail> {
                     Content::Invalid(_) => parsed.is_err(),
                 };
                 ensure!(same, "hand-composition-differs", "complete::parse of file #{} yields {:?}", k, parsed);
+                // the target-type adapters over plain bytes (`SmlParse<&[u8]>`) give the same
+                use sml_rs::SmlParse;
+                let via_adapter = <File as SmlParse<&[u8]>>::parse_from(&i.files[*k].0).map(|f| rfile_of(&f));
+                ensure!(via_adapter.as_ref().ok() == parsed.as_ref().ok() && via_adapter.is_err() == parsed.is_err(), "adapter-differs", "File::parse_from(bytes) yields {:?}, complete::parse {:?}", via_adapter, parsed);
+                let bytes_adapter = <DecodedBytes as SmlParse<&[u8]>>::parse_from(&i.files[*k].0);
+                ensure!(bytes_adapter == Ok(&i.files[*k].0[..]), "adapter-differs", "DecodedBytes::parse_from(bytes) does not return the bytes");
+                let p = <Parser as SmlParse<&[u8]>>::parse_from(&i.files[*k].0).unwrap();
+                let via_parser = drain_parser(p, i.files[*k].0.len() + 4);
+                let want = match &files[*k] {
+                    Content::Valid(f) => matches!(&via_parser, Item::Events(e, None) if *e == events_of(f)),
+                    Content::Invalid(ev) => matches!(&via_parser, Item::Events(e, Some(_)) if e == ev),
+                };
+                ensure!(want, "adapter-differs", "Parser::parse_from(bytes) yields {}", via_parser.short());
             }
             Expect::End => {
                 ensure!(it.next().is_none(), "hand-composition-differs", "transport::decode yields more results than expected");
